@@ -16,6 +16,7 @@ from typing import Dict
 from typing import Iterator
 from typing import List
 from typing import Optional
+from typing import Set
 from typing import Tuple
 from typing import Union
 
@@ -90,6 +91,133 @@ class FuncInfo:
         return f"<Func {self.qualname}>"
 
 
+# An anchor that a rule names may have been renamed (`_index` -> `_as_index`), or moved out of its class into the
+# module: it is then looked for by what it *does*.  One entry per anchor a rule asks for by a private name: a
+# predicate on the source text of a candidate.  A role is filled only when exactly one candidate fits.
+def _has(*needles: str):  # type: ignore[no-untyped-def]
+    return lambda text: all(n in text for n in needles)
+
+
+ANCHOR_ROLES = {
+    # (class, anchor name): (number of parameters besides self - None: any, predicate on the source text)
+    ("JSONPointer", "_index"): (1, _has("int(", "_int_index")),
+    ("JSONPointer", "_getitem"): (2, _has("getitem(", "except KeyError", "except TypeError")),
+    ("JSONPointer", "_encode"): (1, _has("'~0'", "'~1'", ".join(")),
+    ("JSONPointer", "_unicode_escape"): (1, _has("unicode-escape")),
+    ("JSONPointer", "_tokens"): (0, _has("str(", "self.parts")),
+    ("JSONPointer", "_parse"): (None, _has("must start with a slash")),
+    ("RelativeJSONPointer", "_int_like"): (1, _has("isinstance(", "int)", "int(")),
+    ("RelativeJSONPointer", "_zero_or_positive"): (2, _has("leading zero")),
+    ("RelativeJSONPointer", "_parse"): (None, _has("RE_RELATIVE_POINTER")),
+    ("FunctionExtension", "_unpack_node_lists"): (2, _has("arg_types", "NodeList")),
+    ("Parser", "_decode_string_literal"): (1, _has("json.loads")),
+    ("Parser", "_raise_for_uncompared"): (2, _has("must be compared")),
+    ("Parser", "_raise_for_non_comparable_function"): (None, _has("not comparable")),
+    ("Parser", "_slice_bound"): (1, _has("int(", "index out of range")),
+    ("SliceSelector", "_check_range"): (None, _has("_int_index", "index out of range")),
+    ("IndexSelector", "_normalized_index"): (None, _has("len(", "abs(")),
+    ("JSONPatch", "_ensure_pointer"): (1, _has("JSONPointer(", "JSONPatchError")),
+    ("JSONPatch", "_op_value"): (None, _has("missing", "KeyError")),
+    ("JSONPatch", "_op_pointer"): (None, _has("JSONPointer", "missing")),
+    ("JSONPatch", "_build"): (1, _has("'add'", "'remove'", "'replace'", "'move'")),
+    ("JSONPatch", "_load"): (1, _has("json.load")),
+    ("Query", "_select"): (None, _has("Projection.", "finditer(")),
+    ("JSONPathEnvironment", "_lt"): (2, _has(" < ", "Decimal", "isinstance(")),
+    ("JSONPathEnvironment", "_eq"): (2, _has("NodeList", "json_equal(", "UNDEFINED")),
+    ("JSONPathEnvironment", "_contains"): (2, _has(" in ", "except TypeError")),
+}
+
+
+def _own_arity(node: ast.AST) -> int:
+    a = node.args  # type: ignore[attr-defined]
+    n = len(a.posonlyargs) + len(a.args) + len(a.kwonlyargs)
+    decos = {ast.unparse(d).split(".")[-1] for d in getattr(node, "decorator_list", [])}
+    inside_class = bool(a.args) and a.args[0].arg in ("self", "cls") and "staticmethod" not in decos
+    return n - (1 if inside_class else 0)
+
+
+def role_fillers(trees: Dict[str, ast.Module]) -> Dict[Tuple[str, str], Tuple[str, str]]:
+    """On the trees as written (before helpers are inlined): for every anchor of ANCHOR_ROLES that is not there under its
+    own name, the one private method of the class (or plain function of its module) that fits its role - as
+    (class, anchor) -> (module name, function name).  A function fills at most one role; a role with several
+    candidates stays unfilled."""
+    out: Dict[Tuple[str, str], Tuple[str, str]] = {}
+    taken: Set[str] = set()
+    for modname, tree in trees.items():
+        for c in [n for n in ast.walk(tree) if isinstance(n, ast.ClassDef)]:
+            roles = [(k, v) for k, v in ANCHOR_ROLES.items() if k[0] == c.name]
+            if not roles:
+                continue
+            own = {f.name: f for f in c.body if isinstance(f, (ast.FunctionDef, ast.AsyncFunctionDef))}
+            bases = [b for n2 in ast.walk(tree) if isinstance(n2, ast.ClassDef) for b in [n2]
+                     if any(isinstance(x, ast.Name) and x.id == b.name for x in c.bases)]
+            inherited = {f.name: f for b in bases for f in b.body if isinstance(f, (ast.FunctionDef, ast.AsyncFunctionDef))}
+            plain = {f.name: f for f in tree.body if isinstance(f, (ast.FunctionDef, ast.AsyncFunctionDef))}
+            anchors_here = {m for (_c, m), _v in roles}
+            for (cname, anchor), (arity, pred) in roles:
+                if anchor in own or anchor in inherited:
+                    continue
+                def fits(f: ast.AST) -> bool:
+                    if arity is not None and _own_arity(f) != arity:
+                        return False
+                    try:
+                        return bool(pred(ast.unparse(f)))
+                    except Exception:  # noqa: BLE001
+                        return False
+                for pool in (own, inherited, plain):
+                    cands = [n for n, f in pool.items() if n.startswith("_") and not n.startswith("__") and n not in anchors_here
+                             and f"{modname}.{n}" not in taken and fits(f)]
+                    if len(cands) == 1:
+                        out[(cname, anchor)] = (modname, cands[0])
+                        taken.add(f"{modname}.{cands[0]}")
+                        break
+                    if cands:
+                        break
+    return out
+
+
+
+ROLE_FILLERS: Dict[Tuple[str, str], Tuple[str, str]] = {}
+
+
+class MethodTable(dict):  # type: ignore[type-arg]
+    """The methods of a class by name; a private name that is not there is looked for by role (see ANCHOR_ROLES) among
+    the class's other methods and, failing that, the plain functions of its module."""
+
+    owner: "Optional[ClassInfo]" = None
+    _resolving = False
+
+    def _by_role(self, name: str):  # type: ignore[no-untyped-def]
+        cls = self.owner
+        if cls is None:
+            return None
+        filler = ROLE_FILLERS.get((cls.name, name))
+        if filler is None:
+            return None
+        modname, fname = filler
+        found = dict.get(self, fname)
+        if found is None:
+            found = cls.module.functions.get(fname) if cls.module.name == modname else None
+        if found is not None:
+            # findings about it are keyed by the name the rules (and known_findings.json) know the anchor by
+            found.role_qualname = f"{cls.qualname}.{name}"  # type: ignore[attr-defined]
+        return found
+
+    def get(self, name, default=None):  # type: ignore[no-untyped-def,override]
+        if dict.__contains__(self, name):
+            return dict.__getitem__(self, name)
+        found = self._by_role(name)
+        return found if found is not None else default
+
+    def __getitem__(self, name):  # type: ignore[no-untyped-def,override]
+        if dict.__contains__(self, name):
+            return dict.__getitem__(self, name)
+        found = self._by_role(name)
+        if found is None:
+            raise KeyError(name)
+        return found
+
+
 @dataclass(eq=False)
 class ClassInfo:
     qualname: str
@@ -97,9 +225,13 @@ class ClassInfo:
     node: ast.ClassDef
     module: "Module"
     base_names: List[str] = field(default_factory=list)  # resolved dotted names
-    methods: Dict[str, FuncInfo] = field(default_factory=dict)
+    methods: Dict[str, FuncInfo] = field(default_factory=MethodTable)
     assigns: Dict[str, ast.expr] = field(default_factory=dict)
     annotations: Dict[str, ast.expr] = field(default_factory=dict)
+
+    def __post_init__(self) -> None:
+        if isinstance(self.methods, MethodTable):
+            self.methods.owner = self
 
     def __repr__(self) -> str:  # pragma: no cover
         return f"<Class {self.qualname}>"
@@ -156,7 +288,11 @@ class Repo:
                 tree=tree,
             )
             self.modules[modname] = mod
+        self._canonical_attribute_names()
+        ROLE_FILLERS.clear()
+        ROLE_FILLERS.update(role_fillers({m.name: m.tree for m in self.modules.values()}))
         if not os.environ.get("VERIF_NO_CANON"):
+            self._private_properties_as_methods()
             from .canon import Canon
             from .canon import mutable_attrs_of
 
@@ -173,7 +309,11 @@ class Repo:
             from .inline import Inliner
             from .inline import known_functions
 
-            inl = Inliner({m.name: m.tree for m in self.modules.values()}, known_functions())
+            keep = set(known_functions())
+            for (cname_, _anchor), (modname_, fname_) in ROLE_FILLERS.items():
+                keep.add(f"{modname_}.{cname_}.{fname_}")  # a renamed anchor is an anchor: it is not inlined away
+                keep.add(f"{modname_}.{fname_}")
+            inl = Inliner({m.name: m.tree for m in self.modules.values()}, keep)
             self.inlined = inl.run()
             self.inline_log = inl.log
             if self.inlined:
@@ -186,6 +326,84 @@ class Repo:
                 cls.base_names = [
                     self._resolve_base(mod, b) for b in cls.node.bases
                 ]
+
+    # (class, the name the rules know a private attribute by): what its constructor assigns to it
+    ATTR_ROLES = {
+        ("Query", "_it"): lambda text: text.startswith("iter("),
+    }
+
+    def _canonical_attribute_names(self) -> None:
+        """A private attribute that the rules name (`Query._it`) may have been renamed: the attribute that the class's
+        constructor initialises the way the role says is given its canonical name throughout its module (reads, writes,
+        slots) - provided exactly one attribute fits and the canonical name is not in use."""
+        for (cname, canonical), pred in self.ATTR_ROLES.items():
+            for mod in self.modules.values():
+                for c in [n for n in ast.walk(mod.tree) if isinstance(n, ast.ClassDef) and n.name == cname]:
+                    inits = [f for n2 in ast.walk(mod.tree) if isinstance(n2, ast.ClassDef) and (n2 is c or any(
+                        isinstance(b, ast.Name) and b.id == n2.name for b in c.bases)) for f in n2.body
+                        if isinstance(f, ast.FunctionDef) and f.name == "__init__"]
+                    fits = set()
+                    for init in inits:
+                        for n in ast.walk(init):
+                            tgt = n.targets[0] if isinstance(n, ast.Assign) and len(n.targets) == 1 else (n.target if isinstance(n, ast.AnnAssign) and n.value is not None else None)
+                            if isinstance(tgt, ast.Attribute) and isinstance(tgt.value, ast.Name) and tgt.value.id == "self" and pred(ast.unparse(n.value)):  # type: ignore[union-attr]
+                                fits.add(tgt.attr)
+                    if len(fits) != 1 or canonical in fits:
+                        continue
+                    old_name = next(iter(fits))
+                    if not old_name.startswith("_") or any(isinstance(n, ast.Attribute) and n.attr == canonical for n in ast.walk(mod.tree)):
+                        continue
+                    for n in ast.walk(mod.tree):
+                        if isinstance(n, ast.Attribute) and n.attr == old_name:
+                            n.attr = canonical
+                        elif isinstance(n, ast.Constant) and n.value == old_name:
+                            n.value = canonical
+
+    def _private_properties_as_methods(self) -> None:
+        """P0 of the canonical form: a read-only property with a private name (`_tokens`) is the zero-argument method it
+        wraps - `x._tokens` is `x._tokens()`.  Only for a name that is a property in exactly one class of the package,
+        has no setter, is never assigned (as an attribute, a slot or a class-level name) and is never already called."""
+        props: Dict[str, List[ast.FunctionDef]] = {}
+        for mod in self.modules.values():
+            for c in ast.walk(mod.tree):
+                if isinstance(c, ast.ClassDef):
+                    for f in c.body:
+                        if isinstance(f, ast.FunctionDef) and f.name.startswith("_") and not f.name.startswith("__") \
+                                and any(isinstance(d, ast.Name) and d.id == "property" for d in f.decorator_list) \
+                                and len(f.decorator_list) == 1 and len(f.args.args) == 1:
+                            props.setdefault(f.name, []).append(f)
+        names = {n for n, fs in props.items() if len(fs) == 1}
+        if not names:
+            return
+        for mod in self.modules.values():
+            for n in ast.walk(mod.tree):
+                if isinstance(n, ast.Attribute) and n.attr in names and isinstance(n.ctx, (ast.Store, ast.Del)):
+                    names.discard(n.attr)
+                elif isinstance(n, ast.Call) and isinstance(n.func, ast.Attribute) and n.func.attr in names:
+                    names.discard(n.func.attr)
+                elif isinstance(n, ast.ClassDef):
+                    for st in n.body:
+                        for t in (st.targets if isinstance(st, ast.Assign) else [st.target] if isinstance(st, ast.AnnAssign) else []):
+                            if isinstance(t, ast.Name) and t.id in names:
+                                names.discard(t.id)
+                elif isinstance(n, ast.Constant) and isinstance(n.value, str) and n.value in names:
+                    names.discard(n.value)  # (a slot, a getattr by name)
+                elif isinstance(n, ast.FunctionDef) and n.name in names and not any(n is f for f in props[n.name]):
+                    names.discard(n.name)
+        if not names:
+            return
+
+        class _Call(ast.NodeTransformer):
+            def visit_Attribute(self, node: ast.Attribute) -> ast.AST:
+                self.generic_visit(node)
+                if node.attr in names and isinstance(node.ctx, ast.Load):
+                    return ast.copy_location(ast.Call(func=node, args=[], keywords=[]), node)
+                return node
+
+        for mod in self.modules.values():
+            mod.tree = ast.fix_missing_locations(_Call().visit(mod.tree))
+        for nm in names:
+            props[nm][0].decorator_list = []
 
     def digest(self) -> str:
         h = hashlib.sha256()
@@ -487,6 +705,19 @@ class Repo:
             info = self.classes.get(q)
             if info and name in info.methods:
                 return info.methods[name]
+        # not there under that name: by role (a renamed or moved anchor, see ANCHOR_ROLES)
+        filler = ROLE_FILLERS.get((cls.name, name))
+        if filler is not None:
+            for q in self.mro(cls):
+                info = self.classes.get(q)
+                if info is not None and dict.__contains__(info.methods, filler[1]):
+                    found = dict.__getitem__(info.methods, filler[1])
+                    found.role_qualname = f"{cls.qualname}.{name}"  # type: ignore[attr-defined]
+                    return found
+            fn = cls.module.functions.get(filler[1]) if cls.module.name == filler[0] else None
+            if fn is not None:
+                fn.role_qualname = f"{cls.qualname}.{name}"  # type: ignore[attr-defined]
+                return fn
         return None
 
     def class_attr(self, cls: ClassInfo, name: str) -> Optional[Tuple[ClassInfo, ast.expr]]:
